@@ -82,7 +82,9 @@ func oracleTimed(ctx *Ctx, reqs []string, limit time.Duration) (ans []string, ti
 	cmd.Stdout = &ob
 	t0 := time.Now()
 	runErr := cmd.Run()
-	atomic.AddInt64(&c03SearchSpent, int64(time.Since(t0)))
+	if limit == c03FileBudget { // the search budget is for the reload search, not for the one-piece batches
+		atomic.AddInt64(&c03SearchSpent, int64(time.Since(t0)))
+	}
 	if c.Err() == context.DeadlineExceeded {
 		return nil, true, nil
 	}
@@ -122,6 +124,26 @@ func c03Evaluate(ctx *Ctx, root string, cfg wrConfig, before, after map[string]f
 		}
 	}
 	sort.Strings(ev.Changed)
+	// mode changes are changes that need an AUTOFIX line: only "Clearing executable bits",
+	// logged for that file, accounts for a different mode, and only for old &^ 0111
+	for _, rel := range sortedKeys(after) {
+		a, b := after[rel], before[rel]
+		if a.Kind != "f" || b.Kind != "f" || a.Mode == b.Mode {
+			continue
+		}
+		chmodLogged := false
+		if fl := logs[rel]; fl != nil {
+			for _, e := range fl.Entries {
+				if e.Kind == 'C' {
+					chmodLogged = true
+				}
+			}
+		}
+		if !chmodLogged || a.Mode != b.Mode&^0o111 {
+			ev.Problems = append(ev.Problems, c03Problem{Key: "C03/unlogged-mode-change/" + fileClass(rel),
+				What: fmt.Sprintf("the mode of %s changed from %o to %o but no AUTOFIX line \"Clearing executable bits\" accounts for it", rel, b.Mode, a.Mode), File: rel, Old: b.Data, New: a.Data})
+		}
+	}
 	for rel := range logs {
 		names[rel] = true
 	}
@@ -488,6 +510,7 @@ func runC03(ctx *Ctx) *Result {
 		"W: one case = one pkglint -F run (with -r / --only drawn per diagnostic kind / -s / -f / -g; from the root, a category or a package directory; targets: directories, single files, repeated targets, non-clean path spellings) on a generated tree; non-trivial = at least one AUTOFIX line was printed; every file that changed or was named in an AUTOFIX line is judged by the extracted `consistent`"}
 	rng := NewRng(ctx.Seed)
 	c03Unit(ctx, res, rng.Fork())
+	c03CrossCheckExtraction(ctx, res)
 	if res.Broken != "" {
 		return res
 	}
@@ -621,6 +644,7 @@ func c03Whole(ctx *Ctx, res *Result, rng *Rng) {
 				res.Count("W.action."+string(e.Kind), 1)
 			}
 			res.Count("W.fileclass."+fileClass(rel), 1)
+			c03CountSizes(res, "W", fl.Entries) // c03_sizes.go
 		}
 		if n > 0 {
 			nontrivial++
@@ -678,6 +702,9 @@ func c03Whole(ctx *Ctx, res *Result, rng *Rng) {
 	res.Distribution["W.diag_kinds_with_fix"] = sortedKeys(diagKinds)
 	if len(reloadExamples) > 0 {
 		res.Distribution["W.examples_saved_and_loaded_again"] = reloadExamples
+	}
+	if len(res.Violations) == 0 {
+		c03WholeSizeFloor(ctx, res) // c03_sizes.go: a correspondence violation when missed
 	}
 	if len(res.Violations) == 0 && (len(actionKinds) < 4 || len(diagKinds) < 15 || nontrivial < ntrees/3) {
 		res.Broken = fmt.Sprintf("whole-run generator lost its coverage: %d action kinds (need 4), %d diagnostic kinds with a fix (need 15), %d of %d runs with AUTOFIX lines", len(actionKinds), len(diagKinds), nontrivial, ntrees)
